@@ -61,7 +61,12 @@ def strategy_impl(draw, tier):
             # a metric for the axes `s` may vary along further axes as well (e.g. dx(y, x) registered for ('X',))
             others = [a for a in names if a not in s and draw(st.sampled_from([False, False, True]))]
             # (the order in which a metric variable stores its dimensions is drawn too: a position is a set of dimensions)
-            on = list(draw(st.permutations(list(s) + others)))
+            own = list(s)
+            if others and draw(st.integers(0, 4)) == 0:
+                # a metric need not lie along its own axes at all (dx(lat) on a lat-lon grid): it then sits "at the array's
+                # position" along those axes whatever that position is
+                own = []
+            on = list(draw(st.permutations(own + others)))
             pos = [draw(st.sampled_from(opts(a))) for a in on]
             key = frozenset(zip(on, pos))
             if key in seen:
@@ -72,6 +77,21 @@ def strategy_impl(draw, tier):
             vals = draw(gen.data_values(shape, elements=st.integers(1, 31).map(lambda q: q / 8.0)))
             entries.append({"name": f"m{counter}", "on": on, "pos": pos, "values": vals, "offset": 4.0 * counter})
         registry.append({"axes": s, "vars": entries})
+    two_pos = [n for n in names if len(by[n]["positions"]) >= 2]
+    if len(names) >= 2 and two_pos and draw(st.integers(0, 7)) == 0:
+        # the lat-lon case on purpose: the metrics of two axes both vary along one and the same dimension only (dx(lat),
+        # dy(lat)), nothing is registered for the pair, and the array sits at another position along that dimension
+        b = draw(st.sampled_from(two_pos))
+        a = draw(st.sampled_from([n for n in names if n != b]))
+        pb = draw(st.sampled_from(by[b]["positions"]))
+        apos[b] = draw(st.sampled_from([p for p in by[b]["positions"] if p != pb and (p == "center" or pb == "center")] or [pb]))
+        L = gen.pos_len(by[b]["n"], pb)
+        registry = []
+        for k, ax_ in enumerate((a, b)):
+            vals = draw(gen.data_values([L], elements=st.integers(1, 31).map(lambda q: q / 8.0)))
+            registry.append({"axes": [ax_], "vars": [{"name": f"m{k + 1}", "on": [b], "pos": [pb], "values": vals, "offset": 4.0 * (k + 1)}]})
+        req = draw(st.permutations([a, b]))
+        req_k = 2
     extra = draw(st.sampled_from([[], [], [["t", 2]]]))
     dims = [gen.dim_name(n, apos[n]) for n in names] + [e[0] for e in extra]
     sizes = {gen.dim_name(n, apos[n]): gen.pos_len(by[n]["n"], apos[n]) for n in names}
